@@ -55,6 +55,7 @@ const (
 	OpCondBroadcast
 	opWake
 	OpDone
+	OpGosched // runtime.Gosched in the code under test: a step at which the caller offers to be descheduled
 
 	regFirst
 	regParked
@@ -76,7 +77,7 @@ var opNames = [...]string{
 	OpWLock: "rw.Lock(announce)", opWLockAcq: "rw.Lock(acquire)", OpTryWLock: "rw.TryLock", OpWUnlock: "rw.Unlock",
 	OpWGAdd: "wg.Add", OpWGWait: "wg.Wait", OpSend: "chan.send", OpRecv: "chan.recv", OpClose: "chan.close",
 	OpSelect: "select", OpSpawn: "go", OpSleep: "sleep", OpPoolGet: "pool.Get", OpPoolPut: "pool.Put",
-	OpCondWait: "cond.Wait", OpCondSignal: "cond.Signal", OpCondBroadcast: "cond.Broadcast", opWake: "wake", OpDone: "done",
+	OpCondWait: "cond.Wait", OpCondSignal: "cond.Signal", OpCondBroadcast: "cond.Broadcast", opWake: "wake", OpDone: "done", OpGosched: "gosched",
 	regFirst: "", regParked: "parked", regTimerNew: "timer.new", regTimerStop: "timer.stop", regTimerReset: "timer.reset",
 	regNow: "now", regDraw: "draw", regNote: "note", regCount: "count", regStamp: "stamp", regMarkClosed: "mark-closed", regLiveChildren: "live-children",
 }
@@ -375,6 +376,7 @@ type Sim struct {
 	lowPrio  int
 	schedPos int
 	drawPos  int
+	runLen   int
 	enBuf    []*stask
 }
 
@@ -563,10 +565,15 @@ func (s *Sim) pick(en []*stask) *stask {
 		}
 		s.schedPos++
 		if chosen == nil {
-			if lastEnabled {
+			if lastEnabled && !(s.last.req.kind == OpGosched && len(en) > 1) {
 				chosen = s.last
 			} else {
 				chosen = en[0]
+				for i, t := range en { // a task that offers to be descheduled is: take the next one
+					if t == s.last {
+						chosen = en[(i+1)%len(en)]
+					}
+				}
 			}
 		}
 	} else {
@@ -574,7 +581,7 @@ func (s *Sim) pick(en []*stask) *stask {
 		case StratRandom:
 			chosen = en[s.rng.Intn(len(en))]
 		case StratSticky:
-			if lastEnabled && s.rng.Float64() < s.cfg.StickyQ {
+			if lastEnabled && s.last.req.kind != OpGosched && s.rng.Float64() < s.cfg.StickyQ {
 				chosen = s.last
 			} else {
 				chosen = en[s.rng.Intn(len(en))]
@@ -590,6 +597,21 @@ func (s *Sim) pick(en []*stask) *stask {
 					chosen.prio = s.lowPrio
 					s.lowPrio--
 				}
+			}
+			// PCT assumes tasks that terminate when run alone. One that waits by
+			// spinning (runtime.Gosched, or polling an atomic) does not: it yields its
+			// priority when it says so, and after 100 consecutive steps taken while
+			// others could have run, so that a legitimate spin-wait is not starved
+			// into a false no-progress report.
+			if chosen == s.last {
+				s.runLen++
+			} else {
+				s.runLen = 0
+			}
+			if len(en) > 1 && (chosen.req.kind == OpGosched || s.runLen >= 100) {
+				chosen.prio = s.lowPrio
+				s.lowPrio--
+				s.runLen = 0
 			}
 		case StratRoundRobin:
 			if lastEnabled {
@@ -793,6 +815,8 @@ func (s *Sim) exec(t *stask) {
 	oid := 0
 	switch r.kind {
 	case OpStart, OpYield, OpSpawn, OpSleep:
+	case OpGosched:
+		s.count("probe.gosched", 1)
 	case OpAtomic:
 		oid = s.obj(r.obj, objAtomic).id
 	case OpMutexLock:
@@ -1472,6 +1496,20 @@ func Go(fn func()) {
 }
 
 func (s *Sim) wgAdd() { s.wg.Add(1) }
+
+// Gosched stands in for runtime.Gosched in the rewritten code under test: one
+// step at which the strategies prefer to run somebody else.
+func Gosched() {
+	t := current()
+	if t == nil {
+		runtime.Gosched()
+		return
+	}
+	if t.aborting {
+		return
+	}
+	t.call(request{kind: OpGosched})
+}
 
 // Yield is a pure scheduling point.
 func Yield() {
